@@ -134,3 +134,6 @@ Proof.
   - destruct (ms_solved m) eqn:S; cbn; [auto|]. rewrite C, S. cbn. rewrite C, S. auto.
 Qed.
 
+
+Theorem frame_participants p pass sup hc sv h : step h (op_of p pass sup hc sv) = h.
+Proof. apply frame. Qed.
